@@ -7,7 +7,7 @@ from ..core import rule, ob, explain, Ob
 from ..ev import PyRaise
 from ..interp import Interp, make_callable, FuncVal
 from ..src import Unknown
-from .common import C, levels, micro_versions, table_ob, need, single
+from .common import need_no_new_helpers, C, levels, micro_versions, table_ob, need, single
 from .models import encoder_env
 from . import wrappers
 
@@ -220,6 +220,7 @@ def r5(fx):
 @rule('C06', 'R6', 7, 'N1: four sites share threshold >= 5 and score counter - 2 (row/column siblings); N2: 3 per 2x2 block')
 def r6(fx):
     fn = fx.fn('encoder', 'mask_scores')
+    need_no_new_helpers(fx, 'encoder', fn)
     # the run counters: locals incremented by one (`X += 1`) and reset to 1
     counters = sorted({ast.unparse(s.target) for s in src.statements(fn.body) if isinstance(s, ast.AugAssign) and isinstance(s.target, ast.Name)
                        and isinstance(s.op, ast.Add) and isinstance(s.value, ast.Constant) and s.value.value == 1
@@ -316,6 +317,7 @@ def _self_overlap(lit):
 @rule('C06', 'R7', 5, 'N3: literal 1011101, 40 points, light-area test 4 wide on either side or symbol edge, search resumes within the self-overlap shift')
 def r7(fx):
     fn = fx.fn('encoder', 'mask_scores')
+    need_no_new_helpers(fx, 'encoder', fn)
     env = ev.base_env(fx.forest, 'encoder')
     # the search loops: `while <i> != -1` around `<seq>.find(<pattern>, <resume>)`, in mask_scores or a function nested in it
     loops = []
@@ -581,7 +583,7 @@ def r8(fx):
              got=detail or 'ISO 7.8.3.2 formula', want='ISO 7.8.3.2 formula')
 
 
-@rule('C06', 'R9', 11, 'normalize_mask: 0..7 (QR) / 0..3 (Micro), numeric strings accepted, everything else ValueError; factories forward mask')
+@rule('C06', 'R9', 12, 'normalize_mask: 0..7 (QR) / 0..3 (Micro), numeric strings accepted, everything else ValueError; factories forward mask')
 def r9(fx):
     fn = fx.fn('encoder', 'normalize_mask')
     it = Interp()
@@ -627,3 +629,7 @@ def r9(fx):
     yield ob('encode: the mask range is chosen by the final version (Micro iff the version used is a Micro version); the normalised mask reaches _encode', not bad, enc,
              got=bad[:2] or 'as required', want='normalize_mask(mask, <final version is Micro>) -> _encode(mask=...)')
     yield from wrappers.forwarding(fx, {'mask'})
+    from . import p12       # the command line tool passes --pattern on as it is (0 included)
+    for o in p12.r4(fx):
+        if o.key.startswith('make_code maps'):
+            yield o
